@@ -488,7 +488,7 @@ class Body:
                 refs = k.get("promoted_refs") or []
                 if len(refs) == 1:
                     return ("constref", refs[0])
-                return ("promoted", k["def"], k["promoted"])
+                return ("promoted", k["def"], k["promoted"], tuple(k.get("promoted_dbg", [])))
             if k.get("v") is not None:
                 v = conv_int(k["v"])
                 if "def" in k:
